@@ -21,3 +21,24 @@ Theorem C20_volume_affine :
   wsum w != 0 -> A \in unitmx -> wcov x w \in unitmx -> vv2 (aff A b x) w = vv2 x w.
 Proof. exact vv2_affine. Qed.
 Print Assumptions C20_volume_affine.
+
+(** every branch of the routine at once. K = what is done to the weighted covariance before it multiplies the centred rows (its inverse,
+    or the inverse of the matrix regularised by 1e-6 * trace when the rank test fires); g = what is done to the deviation d_i^2 - d
+    (np.clip to +-1e6). Non-negativity and invariance under rescaling of the weights hold for EVERY K and g ... *)
+Theorem C20_volume_every_branch :
+  forall (F : realFieldType) (n d : nat) (K : 'M[F]_d -> 'M[F]_d) (g : F -> F) (x : 'I_n -> 'rV[F]_d) (w : 'I_n -> F),
+  0 <= vvgen K g x w /\ forall c : F, c != 0 -> vvgen K g x (fun j => c * w j) = vvgen K g x w.
+Proof. move=> F n d K g x w; split; [exact: vvgen_ge0|move=> c; exact: vvgen_weight_scale]. Qed.
+Print Assumptions C20_volume_every_branch.
+
+(** ... and affine invariance for the plain inverse with every g: the clip does not matter (the regularised branch is not affine
+    invariant, and is not claimed) *)
+Theorem C20_volume_affine_clipped :
+  forall (F : realFieldType) (n d : nat) (g : F -> F) (A : 'M[F]_d) (b : 'rV[F]_d) (x : 'I_n -> 'rV[F]_d) (w : 'I_n -> F),
+  wsum w != 0 -> A \in unitmx -> wcov x w \in unitmx -> vvgen invmx g (aff A b x) w = vvgen invmx g x w.
+Proof. move=> F n d g A b x w. exact: vvgen_affine. Qed.
+Print Assumptions C20_volume_affine_clipped.
+
+Theorem C20_volume_plain_is_the_general_one :
+  forall (F : realFieldType) (n d : nat) (x : 'I_n -> 'rV[F]_d) (w : 'I_n -> F), vvgen invmx id x w = vv2 x w.
+Proof. by []. Qed.
